@@ -77,6 +77,9 @@ pub struct Opts {
     pub gates_as_control: bool,
     /// use the alias-preserving object graph as state key (K_shape)
     pub shape_key: bool,
+    /// state key = kind classes + aliasing relation among the roots (stack slots, memo entries): which roots are the
+    /// same cell and which root reaches which through >= 1 edges. Sound for cycle creation (see DESIGN §10.8).
+    pub alias_key: bool,
     /// states one slot deeper than the box are still expanded with their operand-consuming opcodes
     /// (their successors are checked, not enqueued): guards are exercised at depth D+1 at a fraction of the cost
     pub fringe_consumers: bool,
@@ -102,6 +105,7 @@ impl Default for Opts {
             gate_alphabet: vec![],
             collect_runs: false,
             fringe_consumers: false,
+            alias_key: false,
         }
     }
 }
@@ -297,7 +301,7 @@ impl<'a> Explorer<'a> {
         let mut data = Vec::with_capacity(script.len() + ZERO_TAIL);
         data.extend_from_slice(script);
         data.resize(script.len() + ZERO_TAIL, 0);
-        let res = run_bytes(&cfg, &data, true, self.opts.shape_key);
+        let res = run_bytes(&cfg, &data, true, self.opts.shape_key || self.opts.alias_key);
         let tr = trace::parse(&res.events, data.len(), !cfg.mutators.is_empty());
         (cfg, res, tr)
     }
@@ -372,7 +376,30 @@ impl<'a> Explorer<'a> {
             return Some((tr, None));
         }
         let use_frame = tr.use_frame.unwrap_or(false);
-        let (key, base_key) = if self.opts.shape_key {
+        let (key, base_key) = if self.opts.alias_key {
+            let g = tr.graphs.iter().find(|(ol, _)| *ol == snap.out_len).map(|(_, g)| g.clone());
+            let (mut kk, _) = kind_key(use_frame, &snap, &valid, None);
+            if let Some(g) = g {
+                let roots: Vec<u32> = g.stack.iter().copied().chain(g.memo.iter().map(|(_, n)| *n)).collect();
+                // strict reachability (>= 1 edge) from every root node
+                let n = g.nodes.len();
+                for (i, &ri) in roots.iter().enumerate() {
+                    let mut seen = vec![false; n];
+                    let mut work: Vec<u32> = g.nodes[ri as usize].1.clone();
+                    while let Some(v) = work.pop() {
+                        if !seen[v as usize] {
+                            seen[v as usize] = true;
+                            work.extend(g.nodes[v as usize].1.iter().copied());
+                        }
+                    }
+                    for (j, &rj) in roots.iter().enumerate() {
+                        let same = i != j && ri == rj;
+                        kk.push((same as u8) | ((seen[rj as usize] as u8) << 1));
+                    }
+                }
+            }
+            (kk.clone(), kk)
+        } else if self.opts.shape_key {
             let g = tr.graphs.iter().find(|(ol, _)| *ol == snap.out_len).map(|(_, g)| g.clone());
             let mut kk = vec![use_frame as u8, snap.proto_emitted as u8];
             if let Some(g) = g {
